@@ -453,8 +453,9 @@ _public_ int m_mod_register(const char *name, m_mod_t **mod_ref, const m_mod_hoo
     }
 
     int ret;
-    m_mod_t *old_mod = m_map_get(c->modules, name);
-    if (old_mod) {
+    m_mod_t *old_mod;
+    /* Loop: old module's on_stop() may register another module with the same name */
+    while ((old_mod = m_map_get(c->modules, name))) {
         if (!(old_mod->flags & M_MOD_ALLOW_REPLACE)) {
             M_DEBUG("Module with same name already registered in context.");
             return -EEXIST;
